@@ -13,6 +13,7 @@ package mqttproxy
 import (
 	"fmt"
 	"math/rand"
+	"net"
 	"sort"
 	"strings"
 	"sync"
@@ -894,4 +895,465 @@ func c15judgePublisher(r *kit.Run, rb *c15rigBroker, c *c15rigClient, cid string
 			r.Count("qos1_publishes_acked"+where, int64(a))
 		}
 	}
+}
+
+// ------------------------------------------------------------------ back-pressure
+
+// c15gate lets the harness stop and resume the socket reads of one raw client (a client that
+// does not read makes the broker's write loop block on the socket, so the connection's
+// 50-packet outbound queue fills).
+type c15gate struct {
+	mu   sync.Mutex
+	open bool
+	ch   chan struct{}
+}
+
+func c15newGate() *c15gate { return &c15gate{open: true} }
+
+func (g *c15gate) set(open bool) {
+	g.mu.Lock()
+	defer g.mu.Unlock()
+	if open == g.open {
+		return
+	}
+	g.open = open
+	if open {
+		close(g.ch)
+	} else {
+		g.ch = make(chan struct{})
+	}
+}
+
+func (g *c15gate) wait() {
+	for {
+		g.mu.Lock()
+		if g.open {
+			g.mu.Unlock()
+			return
+		}
+		ch := g.ch
+		g.mu.Unlock()
+		<-ch
+	}
+}
+
+type c15gatedConn struct {
+	net.Conn
+	g *c15gate
+}
+
+func (c *c15gatedConn) Read(b []byte) (int, error) {
+	c.g.wait()
+	return c.Conn.Read(b)
+}
+
+func (c *c15gatedConn) Close() error {
+	err := c.Conn.Close()
+	c.g.set(true) // never leave the reader goroutine parked at the gate
+	return err
+}
+
+// c15dialGated is c15rigDial with a read gate and a fixed (not auto-tuned) receive buffer, so
+// that the amount of data needed to stall the broker's write loop stays bounded.
+func c15dialGated(cid, addr string, rcvbuf int) (*c15rigClient, *c15gate, error) {
+	var conn net.Conn
+	var err error
+	for try := 0; try < 5; try++ {
+		conn, err = net.DialTimeout("tcp", addr, 20*time.Second)
+		if err == nil {
+			break
+		}
+		time.Sleep(50 * time.Millisecond)
+	}
+	if err != nil {
+		return nil, nil, err
+	}
+	if tc, ok := conn.(*net.TCPConn); ok && rcvbuf > 0 {
+		tc.SetReadBuffer(rcvbuf)
+	}
+	g := c15newGate()
+	c := &c15rigClient{cid: cid, conn: &c15gatedConn{Conn: conn, g: g}, wake: make(chan struct{}), nextID: 1, rdone: make(chan struct{})}
+	c.autoAck.Store(true)
+	go c.readLoop()
+	return c, g, nil
+}
+
+type c15bpRound struct {
+	OwnPubs     []c15out `json:"slow_client_publishes_while_its_queue_is_full"`
+	FastPubs    []c15out `json:"fast_client_publishes_during_flood"`
+	Q1Inject    int      `json:"qos1_injected_while_queue_full"`
+	InjectFirst bool     `json:"qos1_injected_before_own_publishes"`
+}
+
+type c15bpPlan struct {
+	SlowSubQoS byte         `json:"slow_client_sub_qos"`
+	FastSubQoS byte         `json:"fast_client_sub_qos"`
+	PayloadKB  int          `json:"flood_payload_kb"`
+	RcvBufKB   int          `json:"slow_client_rcvbuf_kb"`
+	SndBufKB   int          `json:"broker_side_sndbuf_kb_of_slow_client_connection"`
+	Rounds     []c15bpRound `json:"rounds"`
+}
+
+const (
+	c15bpTopic    = "bp/flood"
+	c15bpMaxFlood = 1200 // bound of one QoS0 burst (messages)
+	c15bpBatch    = 10
+)
+
+func TestVerif_C15_BackPressure(t *testing.T) {
+	c15rigSkipForReplay(t)
+	r := kit.Start(t, "C15")
+	defer r.Finish()
+	r.Rule("back-pressure: per case one broker, a SLOW client (subscribed to the burst topic with QoS 0/1, also a publisher; fixed 256/1024 KB receive buffer, fixed 128/512 KB kernel send buffer on the broker's side of its connection) and a FAST client (subscribed to the same topic with QoS 0/1, also a publisher); 1-2 rounds of: the slow client stops reading its socket, a bounded QoS0 burst (batches of 10 messages of 16/64 KB through httpTopicsPublishHandler, at most 1200) is injected until the slow client's outbound queue (writeCh, 50 slots) is observed full and stays full while nothing is injected, the fast client publishes 2-6 packets during the burst, then while the queue is full the slow client sends 2-8 PUBLISH packets (QoS0/QoS1 mix, >= 1 QoS1, some re-sent with DUP) and 0-4 QoS1 messages are injected for the burst topic (before or after the client's own packets), then the slow client reads again; verdicts only after it resumed: publish goroutines finished + two PINGREQ/PINGRESP round trips per client, then every QoS1 PUBLISH of either client has exactly one PUBACK per packet and one pipeline call per packet, and every QoS1 message injected while the queue was full (and one injected after the drain) is in the log of every client subscribed with QoS1 (a copy that only comes with a retransmission within 60 resend ticks is accepted); QoS0 copies of the burst are counted, never judged (the queue IS full); distinct = (sub QoS of both clients, payload size, own QoS1/QoS0 packets, injected QoS1, order, round, queue observed full)")
+	r.Assume("a client that stops reading resumes later (the unchanged broker blocks the connection's read loop, the resend ticker and the delivering goroutine on the full queue until then); every wait has a 60 s watchdog whose firing is inconclusive; fixed socket buffers are an environment knob (like net.ipv4.tcp_rmem/wmem) that keeps the burst needed to stall the write loop bounded; 'queue full when the PUBLISH was processed' is an observation (len(writeCh)==cap before the packet was sent, with no injection in progress, and again after the pipeline recorded the packet): it labels the signature and feeds Require, it is not part of a verdict")
+	n := r.N(8, 240)
+	for i := 0; i < n; i++ {
+		if !r.Mine(i) {
+			continue
+		}
+		rng := r.CaseRand(i)
+		plan := c15bpPlan{SlowSubQoS: byte(i % 2), FastSubQoS: byte((i / 2) % 2), PayloadKB: []int{16, 64}[rng.Intn(2)], RcvBufKB: []int{256, 1024}[rng.Intn(2)], SndBufKB: []int{128, 512}[rng.Intn(2)]}
+		id := uint16(1 + rng.Intn(50000))
+		mkPubs := func(who string, round, cnt int, needQ1 bool) []c15out {
+			var outs []c15out
+			for k := 0; k < cnt; k++ {
+				o := c15out{Topic: fmt.Sprintf("up/%s/%d", who, rng.Intn(3)), QoS: byte(rng.Intn(2)), Payload: fmt.Sprintf("bp%d.%s.%d.%d", i, who, round, k)}
+				if needQ1 && k == cnt-1 {
+					has := false
+					for _, p := range outs {
+						has = has || p.QoS == 1
+					}
+					if !has {
+						o.QoS = 1
+					}
+				}
+				if o.QoS == 1 {
+					id++
+					o.ID = id
+				}
+				outs = append(outs, o)
+				if o.QoS == 1 && rng.Intn(4) == 0 {
+					d := o
+					d.Dup = true
+					outs = append(outs, d)
+				}
+			}
+			return outs
+		}
+		for round, nr := 0, 1+rng.Intn(2); round < nr; round++ {
+			plan.Rounds = append(plan.Rounds, c15bpRound{
+				OwnPubs:     mkPubs("slow", round, 2+rng.Intn(7), true),
+				FastPubs:    mkPubs("fast", round, 2+rng.Intn(5), true),
+				Q1Inject:    rng.Intn(5),
+				InjectFirst: rng.Intn(2) == 0,
+			})
+		}
+		r.Case(i, plan)
+		c15runBackPressure(r, i, plan)
+		if i == 0 {
+			r.Sample(plan)
+		}
+	}
+	r.Require("bp_rounds_outbound_queue_full", 1)
+	r.Require("bp_own_qos1_publish_processed_while_queue_full", 1)
+	r.Require("bp_own_qos1_publishes_judged", 1)
+	r.Require("bp_qos1_deliveries_to_slow_client_judged", 1)
+	r.Require("bp_qos1_deliveries_to_fast_client_judged", 1)
+}
+
+func c15runBackPressure(r *kit.Run, caseNo int, plan c15bpPlan) {
+	rb, err := c15rigNewBroker(c15rigBrokerOpts{})
+	if err != nil {
+		r.Inconclusive("broker did not start: " + err.Error())
+		return
+	}
+	defer func() {
+		rb.storesQuiesced()
+		rb.close()
+	}()
+	slowCID, fastCID := fmt.Sprintf("bp%d.slow", caseNo), fmt.Sprintf("bp%d.fast", caseNo)
+	slow, gate, err := c15dialGated(slowCID, rb.addr, plan.RcvBufKB*1024)
+	if err != nil {
+		r.Inconclusive("dial: " + err.Error())
+		return
+	}
+	defer func() {
+		gate.set(true)
+		slow.shutdown()
+	}()
+	fast, err := c15rigDial(fastCID, rb.addr)
+	if err != nil {
+		r.Inconclusive("dial: " + err.Error())
+		return
+	}
+	defer fast.shutdown()
+	for _, x := range []struct {
+		c *c15rigClient
+		q byte
+	}{{slow, plan.SlowSubQoS}, {fast, plan.FastSubQoS}} {
+		if rc, st := x.c.connect(true, 0); st != "ok" || rc != packets.Accepted {
+			r.Inconclusive(fmt.Sprintf("connect %s: %s rc=%d", x.c.cid, st, rc))
+			return
+		}
+		if st := x.c.subscribe([]string{c15bpTopic}, []byte{x.q}); st != "ok" {
+			r.Inconclusive("subscribe: " + st)
+			return
+		}
+	}
+	cl, sess := rb.registered(slowCID)
+	if cl == nil || sess == nil {
+		r.Inconclusive("slow client not registered")
+		return
+	}
+	if tc, ok := cl.conn.(*net.TCPConn); ok && plan.SndBufKB > 0 {
+		// environment knob (like net.ipv4.tcp_wmem): a fixed kernel send buffer on the broker's side
+		// of this connection, so that a bounded burst is enough to stall the write loop
+		tc.SetWriteBuffer(plan.SndBufKB * 1024)
+	}
+	full := func() bool { return len(cl.writeCh) == cap(cl.writeCh) }
+	pendingOfSlow := func() int {
+		sess.Lock()
+		defer sess.Unlock()
+		return len(sess.pending)
+	}
+	// barrier: two PING round trips; after the second one the broker has also processed every
+	// PUBACK the client wrote for what it had received before the first PINGRESP.
+	barrier := func(c *c15rigClient) bool {
+		for k := 0; k < 2; k++ {
+			switch st := c.ping(); st {
+			case "ok":
+				r.Count("ping_barriers", 1)
+			case "watchdog":
+				r.Inconclusive("watchdog: no PINGRESP for " + c.cid)
+				return false
+			default:
+				r.Violation("subscriber-connection-ended-by-broker", map[string]interface{}{"plan": plan, "client": c.cid, "state": st, "part": "back-pressure"})
+				return false
+			}
+		}
+		return true
+	}
+	pad := strings.Repeat("x", plan.PayloadKB*1024)
+	where := map[uint16]string{} // packet id of an own QoS1 PUBLISH -> situation it was sent in
+	var slowOuts, fastOuts []c15out
+	type inj struct {
+		payload string
+		sig     string
+	}
+	judgeDeliveries := func(msgs []inj) {
+		for _, m := range msgs {
+			for _, x := range []struct {
+				c    *c15rigClient
+				q    byte
+				slow bool
+			}{{slow, plan.SlowSubQoS, true}, {fast, plan.FastSubQoS, false}} {
+				if x.q < 1 {
+					continue
+				}
+				r.Eval(1)
+				who := "fast"
+				if x.slow {
+					who = "slow"
+				}
+				r.Count("bp_qos1_deliveries_to_"+who+"_client_judged", 1)
+				n, bad := 0, false
+				for _, e := range x.c.pubs() {
+					if e.Payload == m.payload {
+						n++
+						bad = bad || e.Topic != c15bpTopic || e.QoS != 1
+					}
+				}
+				if n == 0 {
+					// not in the first transmission: the property is also satisfied by a copy that
+					// comes with the session's retransmission (this client acknowledges at once, so
+					// the head of its pending queue advances); bound = harness resend ticks
+					c15rigTicks(c15rigMaxTicks, func(int) bool {
+						if x.c.ping() != "ok" {
+							return true
+						}
+						n, _ = x.c.copies(m.payload)
+						return n > 0
+					})
+					if n > 0 {
+						r.Count("bp_qos1_delivered_only_by_retransmission", 1)
+					}
+				}
+				sig := m.sig
+				if !x.slow && strings.HasSuffix(sig, "subscriber-outbound-queue-full") {
+					sig = strings.TrimSuffix(sig, "subscriber-outbound-queue-full") + "other-subscriber-outbound-queue-full"
+				}
+				switch {
+				case n == 0:
+					r.Violation(sig, map[string]interface{}{"plan": plan, "payload": m.payload, "missed_by": x.c.cid,
+						"how_decided": "slow client reading again, publish goroutines finished, two PINGREQ/PINGRESP round trips on this connection, then 60 harness resend ticks each followed by a PING round trip: the message is not in the receive log"})
+				case bad:
+					r.Violation("delivered-with-wrong-topic-or-qos", map[string]interface{}{"plan": plan, "payload": m.payload, "client": x.c.cid})
+				default:
+					r.Count("delivered_q1_under_back_pressure", 1)
+					if n > 1 {
+						r.Count("duplicate_copies_seen", 1)
+					}
+				}
+			}
+		}
+	}
+	floodSeq := 0
+	for round, rd := range plan.Rounds {
+		if p := pendingOfSlow(); p != 0 {
+			r.Inconclusive(fmt.Sprintf("slow client's session still has %d unacknowledged messages before the burst", p))
+			return
+		}
+		gate.set(false) // the slow client stops reading
+		var wg sync.WaitGroup
+		wg.Add(1)
+		go func() { // the fast client publishes during the burst
+			defer wg.Done()
+			for _, o := range rd.FastPubs {
+				if err := fast.publish(o.Topic, o.QoS, o.ID, o.Payload, o.Dup); err != nil {
+					r.Inconclusive("write: " + err.Error())
+					return
+				}
+				time.Sleep(time.Millisecond)
+			}
+		}()
+		fastOuts = append(fastOuts, rd.FastPubs...)
+		pfx := fmt.Sprintf("f%d.%d.", caseNo, round)
+		filled, injected := false, 0
+		for injected < c15bpMaxFlood && !filled {
+			for k := 0; k < c15bpBatch; k++ {
+				if code := rb.httpPublish(c15bpTopic, 0, fmt.Sprintf("%s%d|%s", pfx, floodSeq, pad), true); code != 200 {
+					r.Violation(fmt.Sprintf("http-publish-rejected:%d", code), map[string]interface{}{"plan": plan})
+				}
+				floodSeq++
+				injected++
+			}
+			if !rb.publishQuiesced() {
+				r.Inconclusive("watchdog: publish goroutines of the QoS0 burst did not finish")
+				return
+			}
+			if full() {
+				// nothing is being injected now: a queue that stays full is not being drained,
+				// i.e. the write loop is stuck on the socket
+				filled = true
+				for k := 0; k < 3 && filled; k++ {
+					time.Sleep(5 * time.Millisecond)
+					filled = full()
+				}
+			}
+		}
+		wg.Wait()
+		r.Max("max:burst_messages_until_queue_full", int64(injected))
+		if filled {
+			r.Count("bp_rounds_outbound_queue_full", 1)
+		} else {
+			r.Count("bp_rounds_queue_not_filled_by_bounded_burst", 1)
+		}
+		var q1msgs []inj
+		inject := func() {
+			for k := 0; k < rd.Q1Inject; k++ {
+				m := inj{payload: fmt.Sprintf("bpq1.%d.%d.%d", caseNo, round, k), sig: "delivery-missed:q1:subscriber-outbound-queue-full"}
+				if !filled {
+					m.sig = "delivery-missed:q1:subscriber-not-reading"
+				}
+				if code := rb.httpPublish(c15bpTopic, 1, m.payload, true); code != 200 {
+					r.Violation(fmt.Sprintf("http-publish-rejected:%d", code), map[string]interface{}{"plan": plan})
+				}
+				q1msgs = append(q1msgs, m)
+			}
+		}
+		if rd.InjectFirst {
+			inject()
+		}
+		// the slow client's own packets; the broker's read loop of this connection takes them
+		// in order and (unchanged code) blocks at the first QoS1 one until there is room
+		firstQ1 := ""
+		fullBefore := filled && full()
+		for _, o := range rd.OwnPubs {
+			if err := slow.publish(o.Topic, o.QoS, o.ID, o.Payload, o.Dup); err != nil {
+				r.Inconclusive("write: " + err.Error())
+				return
+			}
+			if o.QoS == 1 && firstQ1 == "" {
+				firstQ1 = o.Payload
+			}
+		}
+		slowOuts = append(slowOuts, rd.OwnPubs...)
+		seen := false
+		for deadline := time.Now().Add(c15rigWatchdog); !seen && time.Now().Before(deadline); {
+			for _, pc := range rb.pipe.snapshot() {
+				if pc.CID == slowCID && pc.Payload == firstQ1 {
+					seen = true
+				}
+			}
+			if !seen {
+				time.Sleep(time.Millisecond)
+			}
+		}
+		if !seen {
+			r.Inconclusive("watchdog: the pipeline never saw the slow client's QoS1 PUBLISH")
+			return
+		}
+		situation := ":publisher-not-reading"
+		if fullBefore && full() {
+			situation = ":own-outbound-queue-full"
+			r.Count("bp_own_qos1_publish_processed_while_queue_full", 1)
+		}
+		for _, o := range rd.OwnPubs {
+			if o.QoS == 1 {
+				where[o.ID] = situation
+			}
+		}
+		if !rd.InjectFirst {
+			inject()
+		}
+		gate.set(true) // the slow client reads again
+		if !rb.publishQuiesced() {
+			r.Inconclusive("watchdog: publish goroutines did not finish after the slow client resumed")
+			return
+		}
+		if !barrier(slow) || !barrier(fast) {
+			return
+		}
+		judgeDeliveries(q1msgs)
+		// QoS0 copies of the burst: evidence only
+		for _, c := range []*c15rigClient{slow, fast} {
+			got := 0
+			for _, e := range c.pubs() {
+				if strings.HasPrefix(e.Payload, pfx) {
+					got++
+				}
+			}
+			if c == slow && got < injected {
+				r.Count("bp_qos0_copies_dropped_on_full_queue(not judged)", int64(injected-got))
+			}
+			r.Count("bp_qos0_burst_copies_received(not judged)", int64(got))
+		}
+		q1own := 0
+		for _, o := range rd.OwnPubs {
+			if o.QoS == 1 {
+				q1own++
+			}
+		}
+		r.Cover(fmt.Sprintf("backpressure:slowq%d/fastq%d/kb%d/ownq1=%d/ownq0=%d/injq1=%d/injfirst=%v/round%d/full=%v", plan.SlowSubQoS, plan.FastSubQoS, plan.PayloadKB, q1own, len(rd.OwnPubs)-q1own, rd.Q1Inject, rd.InjectFirst, round, situation == ":own-outbound-queue-full"))
+	}
+	// after the drain: ordinary delivery works again
+	post := inj{payload: fmt.Sprintf("bppost.%d", caseNo), sig: "delivery-missed:q1:after-back-pressure"}
+	if code := rb.httpPublish(c15bpTopic, 1, post.payload, true); code != 200 {
+		r.Violation(fmt.Sprintf("http-publish-rejected:%d", code), map[string]interface{}{"plan": plan})
+	}
+	if !rb.publishQuiesced() {
+		r.Inconclusive("watchdog: publish goroutines did not finish")
+		return
+	}
+	if !barrier(slow) || !barrier(fast) {
+		return
+	}
+	judgeDeliveries([]inj{post})
+	for _, o := range slowOuts {
+		if o.QoS == 1 && !o.Dup {
+			r.Count("bp_own_qos1_publishes_judged", 1)
+		}
+	}
+	c15judgePublisher(r, rb, slow, slowCID, false, slowOuts, func(o c15out) string { return where[o.ID] })
+	c15judgePublisher(r, rb, fast, fastCID, false, fastOuts, func(c15out) string { return ":publisher-subscribed-to-burst" })
 }
